@@ -10,6 +10,7 @@ for m in sorted(glob.glob(os.path.join(VERIF, 'seeded', '*', 'meta.json'))):
         v = c['verdict']
         mark = '**caught, failing input**' if v == 'VIOLATION with failing input' else '**caught**, no-failing-input-found' if v.startswith('VIOLATION') else 'MISSED' if v.startswith('not detected') else v
         res.append('%s: %s' % (c['check'], mark))
+    if d.get('status') == 'retired': res.append('RETIRED (the change exploited a genuine defect that was repaired since; see meta.json)')
     rows.append('| %s | %s | %s | %s | %s |' % (d['id'], ', '.join('`%s`' % f for f in d['files_changed']), d['change'].replace('|', '\\|'),
                                              d['needs_to_manifest'].replace('|', '\\|'), '; '.join(res)))
 out = ['# Seeded changes and which checks catch them', '',
